@@ -217,7 +217,17 @@ func init() {
 			return &v
 		},
 		"verifFlockHeld": func(fr *frame, args []value) value {
-			return fr.i.flocks()[args[0].(string)] != nil
+			// is any lock held on an inode that is or was named by this path?
+			st := fr.i.flockState()
+			if ino := st.paths[args[0].(string)]; ino != nil && ino.held != nil {
+				return true
+			}
+			for _, ino := range st.objs {
+				if ino.held != nil {
+					return true
+				}
+			}
+			return false
 		},
 		// non-forking Boolean connectives
 		"verifOr": func(fr *frame, args []value) value {
@@ -434,37 +444,47 @@ func init() {
 			}
 			return nil
 		},
-		// advisory file lock: one Boolean per path (the OS contract of flock)
+		// advisory file lock: one lock per lock-file inode; a Flock object opens the
+		// path (getting the inode the path names at that moment) when it first tries
+		// to lock and closes it on Unlock; os.Remove unlinks the path from its inode.
 		"(*github.com/gofrs/flock.Flock).TryLock": func(fr *frame, args []value) value {
 			i := fr.i
 			p := args[0].(*value)
-			path := flockPath(fr, p)
-			held := i.flocks()
-			if held[path] != nil {
+			ino := i.flockInode(p, flockPath(fr, p))
+			if ino.held != nil {
+				if ino.held != p {
+					delete(i.flockState().objs, p) // the library closes its descriptor again
+				}
 				return tuple{false, iface{}}
 			}
-			held[path] = p
+			ino.held = p
 			return tuple{true, iface{}}
 		},
 		"(*github.com/gofrs/flock.Flock).Lock": func(fr *frame, args []value) value {
 			i := fr.i
 			p := args[0].(*value)
-			path := flockPath(fr, p)
-			held := i.flocks()
-			if held[path] != nil {
-				i.block(func() bool { return held[path] == nil }, "flock")
+			ino := i.flockInode(p, flockPath(fr, p))
+			if ino.held != nil {
+				i.block(func() bool { return ino.held == nil }, "flock")
 			}
-			held[path] = p
+			ino.held = p
 			return iface{}
 		},
 		"(*github.com/gofrs/flock.Flock).Unlock": func(fr *frame, args []value) value {
 			i := fr.i
 			p := args[0].(*value)
-			path := flockPath(fr, p)
-			held := i.flocks()
-			if held[path] == p {
-				delete(held, path)
+			st := i.flockState()
+			if ino := st.objs[p]; ino != nil {
+				if ino.held == p {
+					ino.held = nil
+				}
+				delete(st.objs, p)
 			}
+			return iface{}
+		},
+		"os.Remove": func(fr *frame, args []value) value {
+			st := fr.i.flockState()
+			delete(st.paths, args[0].(string))
 			return iface{}
 		},
 		"runtime.Gosched": func(fr *frame, args []value) value {
@@ -481,13 +501,35 @@ func flockPath(fr *frame, p *value) string {
 	return (*p).(structure)[fieldIndex(t, "path")].(string)
 }
 
-func (i *Interp) flocks() map[string]*value {
-	m, _ := i.extra["flocks"].(map[string]*value)
+type flockInode struct{ held *value }
+
+type flockModel struct {
+	paths map[string]*flockInode // the inode a path currently names
+	objs  map[*value]*flockInode // the inode a Flock object has open
+}
+
+func (i *Interp) flockState() *flockModel {
+	m, _ := i.extra["flocks"].(*flockModel)
 	if m == nil {
-		m = map[string]*value{}
+		m = &flockModel{paths: map[string]*flockInode{}, objs: map[*value]*flockInode{}}
 		i.extra["flocks"] = m
 	}
 	return m
+}
+
+// flockInode returns the inode the Flock object p has open, opening path if necessary.
+func (i *Interp) flockInode(p *value, path string) *flockInode {
+	st := i.flockState()
+	if ino := st.objs[p]; ino != nil {
+		return ino
+	}
+	ino := st.paths[path]
+	if ino == nil {
+		ino = &flockInode{}
+		st.paths[path] = ino
+	}
+	st.objs[p] = ino
+	return ino
 }
 
 func fmtArg0(args []value) string {
